@@ -162,6 +162,7 @@ func buildCorpus(thorough bool) []corpusCase {
 		add(rawCase("message0", cat([]byte{1, byte(network.CMDBlock), 8}, []byte{0x01, 0x00, 0x00, 0x02}, []byte{0, 0, 0, 0}))) // claimed length over MaxSize
 		add(rawCase("aer", cat(make([]byte, 42), vu)))
 	}
+	add(rawCase("attr", mustHex("e0 03 010203"))) // Reserved attribute: no JSON form that can be read back
 	// --- nesting ---
 	add(rawCase("cond", mustHex("01 01 01 0001")))       // four levels: rejected
 	add(rawCase("cond", mustHex("01 01 0001")))          // three levels: accepted
